@@ -1099,8 +1099,12 @@ def handmade_delta(base: bytes, target: bytes) -> bytes:
 
 
 def _clen(payload: bytes, level: int) -> int:
-    import zlib
-    return len(zlib.compress(payload, level))
+    return len(compress_chunks([payload], level))      # exactly how pack_object_chunks compresses
+
+
+def _near(L: int) -> str:
+    k = (L + ZSLICE // 2) // ZSLICE
+    return f"{k}x{ZSLICE}{L - k * ZSLICE:+d}"
 
 
 def find_aligned(rng, target: int, level: int, kind: str):
@@ -1459,7 +1463,7 @@ def pack_case(ctx, stream, objs, opts, workers=None, model=True, git=False):
         lay = entry_layout(pack, [v[0] for v in entries.values()])
         L = lay[-1][2] - lay[-1][1]
         d = ctx.hist.setdefault(stream + ".aligned-streams", {})
-        key = f"{opts.get('akind')}:level{opts['level']}:{L // ZSLICE}x{ZSLICE}{L % ZSLICE - ZSLICE if L % ZSLICE > ZSLICE // 2 else L % ZSLICE:+d}"
+        key = f"{opts.get('akind')}:level{opts['level']}:{_near(L)}"
         d[key] = d.get(key, 0) + 1
     # ---------------- streaming reader under a random chunking of the same bytes
     try:
@@ -1852,7 +1856,7 @@ def git_aligned_case(ctx, stream, target: int, level: int):
                 hit = (base, pack, blob)
                 break
             n += target - L
-        ctx.count(stream, (target, level, n), True, f"level{level}:{'hit' if hit else 'missed'}:{target // ZSLICE}x{ZSLICE}{target % ZSLICE - ZSLICE if target % ZSLICE > ZSLICE // 2 else target % ZSLICE:+d}")
+        ctx.count(stream, (target, level, n), True, f"level{level}:{'hit' if hit else 'missed'}:{_near(target)}")
         if hit is None:
             return
         base, pack, blob = hit
